@@ -183,7 +183,7 @@ func (x *Exec) zeroValue(t types.Type) SVal {
 		av := &ArrayV{T: u, Leaves: map[string]*Content{}}
 		leaves, _ := leafPaths(u.Elem())
 		for _, l := range leaves {
-			av.Leaves[l.Key] = x.ContentConst(x.zeroValue(l.T).(*Term))
+			av.Leaves[l.Key] = x.ContentConst(x.zeroLeaf(l))
 		}
 		return av
 	case *types.Map, *types.Chan:
@@ -218,13 +218,53 @@ func (x *Exec) newArrayObject(st *State, name string, elem types.Type, alen *Ter
 	leaves, _ := leafPaths(elem)
 	for _, l := range leaves {
 		if zero {
-			os.Leaves[l.Key] = x.ContentConst(x.zeroValue(l.T).(*Term))
+			os.Leaves[l.Key] = x.ContentConst(x.zeroLeaf(l))
 		} else {
 			os.Leaves[l.Key] = x.ContentBase(name+l.Key, l.Sort)
 		}
 	}
 	st.mem[o] = os
 	return o
+}
+
+func (x *Exec) zeroLeaf(l leafInfo) *Term {
+	switch l.Sort.K {
+	case KBool:
+		return x.tb.False()
+	case KInt:
+		return x.tb.Intc(0)
+	}
+	return x.tb.BVi(l.Sort.W, 0)
+}
+
+// ifaceBits returns the (bits, str) payload terms of an interface value, creating them on first use.
+func (x *Exec) ifaceBits(iv *IfaceV) (*Term, *Term) {
+	tb := x.tb
+	if iv.Bits == nil {
+		if t, ok := iv.Val.(*Term); ok && iv.Dyn != nil {
+			switch t.sort.K {
+			case KBool:
+				iv.Bits = tb.Ite(t, tb.BVi(64, 1), tb.BVi(64, 0))
+			case KBV:
+				iv.Bits = tb.ZExt(64, t)
+			default:
+				iv.Bits = tb.BVi(64, 0)
+			}
+			if t.sort.K == KInt {
+				iv.Str = t
+			}
+		} else {
+			iv.Bits = tb.Fresh("iface.bits", BV(64))
+		}
+	}
+	if iv.Str == nil {
+		if iv.Dyn != nil {
+			iv.Str = tb.Intc(0)
+		} else {
+			iv.Str = tb.Fresh("iface.str", SInt)
+		}
+	}
+	return iv.Bits, iv.Str
 }
 
 func (x *Exec) symbolic(st *State, t types.Type, name string, pre bool, depth int) SVal {
@@ -383,6 +423,12 @@ func (x *Exec) readElem(st *State, o *Object, idx *Term, path []int, t types.Typ
 			sv.Fields = append(sv.Fields, x.readElem(st, o, idx, append(append([]int(nil), path...), i), u.Field(i).Type()))
 		}
 		return sv
+	case *types.Interface:
+		k := pathKey(path)
+		if ct := os.Leaves[k+"#tag"]; ct != nil {
+			return &IfaceV{Tag: x.Select(ct, idx), Id: x.Select(os.Leaves[k+"#id"], idx), Bits: x.Select(os.Leaves[k+"#bits"], idx), Str: x.Select(os.Leaves[k+"#str"], idx),
+				Static: t, payloads: map[string]SVal{}, Name: o.Name + k}
+		}
 	}
 	// non-scalar leaf inside array element: kept only for concrete indices
 	if idx.IsConst() {
@@ -418,6 +464,19 @@ func (x *Exec) writeElem(st *State, o *Object, idx *Term, path []int, t types.Ty
 				rec(append(append([]int(nil), path...), i), u.Field(i).Type(), sv.Fields[i])
 			}
 			return
+		}
+		if _, ok := t.Underlying().(*types.Interface); ok {
+			if iv, isI := v.(*IfaceV); isI {
+				k := pathKey(path)
+				if c := n.Leaves[k+"#tag"]; c != nil {
+					bits, str := x.ifaceBits(iv)
+					n.Leaves[k+"#tag"] = x.StoreC(c, idx, iv.Tag)
+					n.Leaves[k+"#id"] = x.StoreC(n.Leaves[k+"#id"], idx, iv.Id)
+					n.Leaves[k+"#bits"] = x.StoreC(n.Leaves[k+"#bits"], idx, bits)
+					n.Leaves[k+"#str"] = x.StoreC(n.Leaves[k+"#str"], idx, str)
+					return
+				}
+			}
 		}
 		if idx.IsConst() {
 			cells := map[string]SVal{}
@@ -997,6 +1056,9 @@ func (x *Exec) step(fr *Frame, st *State, ins ssa.Instruction) bool {
 		case *PtrV:
 			// typed nil pointers keep a non-zero tag
 			iv.Id = tb.Ite(pv.IsNil, tb.Intc(0), tb.Intc(int64(pv.Obj.ID)))
+		case *Term:
+			iv.Id = tb.Intc(1) // scalar payloads are compared by value (bits/str), not by identity
+			x.ifaceBits(iv)
 		default:
 			iv.Id = tb.Fresh("ifaceid", SInt)
 		}
@@ -1299,7 +1361,14 @@ func (x *Exec) ifaceEq(a, b *IfaceV) *Term {
 			return x.structEq(av, b.Val.(*StructV))
 		}
 	}
-	return tb.And(tb.Eq(a.Tag, b.Tag), tb.Or(tb.Eq(a.Tag, tb.Intc(0)), tb.Eq(a.Id, b.Id)))
+	same := tb.Eq(a.Id, b.Id)
+	if a.Bits != nil && b.Bits != nil {
+		same = tb.And(same, tb.Eq(a.Bits, b.Bits))
+	}
+	if a.Str != nil && b.Str != nil {
+		same = tb.And(same, tb.Eq(a.Str, b.Str))
+	}
+	return tb.And(tb.Eq(a.Tag, b.Tag), tb.Or(tb.Eq(a.Tag, tb.Intc(0)), same))
 }
 
 func (x *Exec) structEq(a, b *StructV) *Term {
@@ -1419,6 +1488,17 @@ func (x *Exec) convert(st *State, v SVal, from, to types.Type) SVal {
 func (x *Exec) payloadFor(st *State, iv *IfaceV, t types.Type) SVal {
 	if iv.Dyn != nil {
 		return iv.Val
+	}
+	if srt, isScalar := scalarSort(t); isScalar {
+		bits, str := x.ifaceBits(iv)
+		switch srt.K {
+		case KInt:
+			return str
+		case KBool:
+			return x.tb.Eq(x.tb.Extract(0, 0, bits), x.tb.BVi(1, 1))
+		default:
+			return x.tb.Extract(srt.W-1, 0, bits)
+		}
 	}
 	key := types.TypeString(t, nil)
 	if iv.payloads == nil {
